@@ -21,6 +21,10 @@ def extra_docs():
     out.append(b + [N("GET /loc", [N("301", [N('Headers\n{"Location": "x"}')]), N("200 any")])])     # a response without a body
     out.append(b + [N("POST /rq", [N("Request", [N('Headers\n{"h": "v"}')]), N("200 any")])])        # a request without a body
     out.append(b + [N("GET /", [N("200 any")]), N("GET /./x", [N("200 any")]), N("GET /a_b/c", [N("200 any")]), N("GET /{p}", [N("200 any")])])
+    # methods with their own path parameters that exist only after PASTE expansion
+    out.append(b + [N("MACRO @m", [N("GET /orders/{orderId}/items/{itemId}", [N("200 any")])], explicit=True), N("PASTE @m")])
+    out.append(b + [N("MACRO @m", [N("GET /health/{probe}", [N("200 any")])], explicit=True), N("URL /api", [N("PASTE @m"), N("POST", [N("200 any")])])])
+    out.append(b + [N("URL /api/{v}", [N("PASTE @m")]), N("MACRO @m", [N("GET", [N("200 any")]), N("DELETE /other/{x}", [N("200 any")])], explicit=True)])
     return out
 
 
